@@ -321,6 +321,86 @@ class LoopSpec:
         return it.get(n)
 
 
+
+_MUTATORS = {'append', 'remove', 'extend', 'pop', 'insert', 'add', 'update', 'clear', 'setdefault', 'sort', 'reverse', 'discard', 'popitem'}
+
+
+def loop_signature(node):
+    """Names a loop carries from one iteration to the next, and the names its header binds: what a loop contract is written over.
+    carried = augmented-assignment targets, receivers of mutating calls (x.append ..), bases of subscript / attribute stores,
+    and names that one iteration reads (guard included) before it assigns them, while it does assign them."""
+    targets = sorted({n.id for n in ast.walk(node.target) if isinstance(n, ast.Name)}) if isinstance(node, ast.For) else []
+    carried = set()
+    events = []          # (name, 'load' | 'store') in evaluation order
+
+    def ev(n):
+        if isinstance(n, ast.Name):
+            events.append((n.id, 'store' if isinstance(n.ctx, (ast.Store, ast.Del)) else 'load'))
+            return
+        if isinstance(n, ast.Lambda) or isinstance(n, (ast.FunctionDef, ast.AsyncFunctionDef)):
+            for d in ast.walk(n):
+                if isinstance(d, ast.Name) and isinstance(d.ctx, ast.Load):
+                    events.append((d.id, 'load'))
+            return
+        if isinstance(n, (ast.Assign, ast.AnnAssign)):
+            if n.value is not None:
+                ev(n.value)
+            for t in (n.targets if isinstance(n, ast.Assign) else [n.target]):
+                ev(t)
+            return
+        if isinstance(n, ast.AugAssign):
+            for t in ast.walk(n.target):
+                if isinstance(t, ast.Name):
+                    carried.add(t.id)
+                    break
+            ev(n.value)
+            return
+        if isinstance(n, ast.NamedExpr):
+            ev(n.value)
+            ev(n.target)
+            return
+        if isinstance(n, ast.Call) and isinstance(n.func, ast.Attribute) and n.func.attr in _MUTATORS and isinstance(n.func.value, ast.Name):
+            carried.add(n.func.value.id)
+        if isinstance(n, (ast.Subscript, ast.Attribute)) and isinstance(n.ctx, ast.Store):
+            b = n.value
+            while isinstance(b, (ast.Subscript, ast.Attribute)):
+                b = b.value
+            if isinstance(b, ast.Name):
+                carried.add(b.id)
+        if isinstance(n, ast.For):
+            ev(n.iter)
+            ev(n.target)
+            for st in n.body + n.orelse:
+                ev(st)
+            return
+        for ch in ast.iter_child_nodes(n):
+            ev(ch)
+    if isinstance(node, ast.While):
+        ev(node.test)
+    for st in node.body:
+        ev(st)
+    stored, seen_load_first = set(), set()
+    for name, kind in events:
+        if kind == 'load' and name not in stored:
+            seen_load_first.add(name)
+        elif kind == 'store':
+            stored.add(name)
+    carried |= {n for n in stored if n in seen_load_first}
+    return {'targets': targets, 'carried': sorted(carried - set(targets))}
+
+
+def _load_loop_baseline():
+    import json
+    import os
+    try:
+        return json.load(open(os.path.join(os.path.dirname(os.path.dirname(os.path.abspath(__file__))), 'contracts', 'baseline_loops.json')))['loops']
+    except Exception:
+        return {}
+
+
+_LOOP_BASELINE = _load_loop_baseline()
+
+
 _BINOPS = {
     ast.Add: operator.add, ast.Sub: operator.sub, ast.Mult: operator.mul, ast.Div: operator.truediv,
     ast.FloorDiv: operator.floordiv, ast.Mod: operator.mod, ast.Pow: operator.pow,
@@ -577,6 +657,7 @@ class Interp:
                     break
             return
         # --- cut-point treatment
+        self._check_loop_shape(s, key)
         if spec.header is not None and spec.header != ast.unparse(s.target) + ' in ' + ast.unparse(s.iter):
             raise OutOfSubset(f'{self.source_name}:{s.lineno}: loop header changed; loop contract {key} '
                               f'was written for `{spec.header}`')
@@ -602,6 +683,18 @@ class Interp:
             n = ln if isinstance(ln, SInt) else SInt(z3.IntVal(ln))
             spec.havoc(self, env, it, n, True)
 
+    def _check_loop_shape(self, node, key):
+        """A loop contract is written over the variables the loop carries.  If the loop of the current source carries other
+        variables than the loop the contract was written for (a renamed accumulator, an extra one), the contract does not apply:
+        undecided, never a refutation."""
+        base = _LOOP_BASELINE.get(self.source_name, {}).get(f'{key[0]}#{key[1]}')
+        if not base:
+            return
+        sig = loop_signature(node)
+        if not any(sig == b for b in base):
+            raise OutOfSubset(f'{self.source_name}:{node.lineno}: loop {key} carries {sig["carried"]} (binds {sig["targets"]}); its contract was '
+                              f'written for a loop carrying {base[0]["carried"]} (binding {base[0]["targets"]})')
+
     def _loop_ordinal(self, node):
         return getattr(node, 'kvc_ordinal', None)
 
@@ -612,6 +705,7 @@ class Interp:
         spec = self.loop_specs.get(key)
         if spec is not None:
             # cut point: (establish) then either one arbitrary iteration from a havoced invariant state, or the exit state
+            self._check_loop_shape(s, key)
             if spec.header is not None and spec.header != ast.unparse(s.test):
                 raise OutOfSubset(f'{self.source_name}:{s.lineno}: loop guard changed; loop contract {key} was written for `{spec.header}`')
             spec.establish(self, env, None)
